@@ -327,6 +327,69 @@ def check(run):
             got, want = f'raises {e}', sorted(vals.items())
         run.check(got == want, 'D2', f'HashMap round trip[{ser} values]' if got != want else f'values[{ser}]', f'{ser} values: read back {str(got)[:100]}, stored {str(want)[:100]}', w_ser)
 
+    # ------------------------------------------------------------------ D5 histories and positions
+    run.rule('D5', 'serialize() reflects the map as it is now (after any setter, after a change of value serialiser); a dictionary stored behind other references / other dictionaries is the one read back', 7)
+    rd8 = 'lambda v: v.load_uint(8)'
+    rd16 = 'lambda v: v.load_uint(16)'
+
+    def parsed_pairs(it, cell, rdsrc):
+        res = it.invoke(prog.method('HashMap', 'parse'), [cm.call_method(it, cell, 'begin_parse'), K(4), K(None), lam(prog, rdsrc)], {})
+        return [(k.v, v.v if isinstance(v, K) else repr(v)) for k, v in zip(res.keyobj.values(), res.d.values())]
+    for mut in ('set', 'set_int_key'):
+        for what, (k2, v2) in (('new key', (9, 90)), ('overwritten value', (3, 33))):
+            it = Interp(prog)
+            hm = new_map(it, prog, 4)
+            for k, v in ((3, 30), (12, 120)):
+                cm.call_method(it, hm, 'set', K(k), K(v))
+            try:
+                first = parsed_pairs(it, cm.call_method(it, hm, 'serialize'), rd8)
+                cm.call_method(it, hm, mut, K(k2), K(v2))
+                got = parsed_pairs(it, cm.call_method(it, hm, 'serialize'), rd8)
+            except RaiseEx as e:
+                first, got = None, f'raises {e}'
+            want = sorted({3: 30, 12: 120, k2: v2}.items())
+            run.evaluations += 1
+            run.check(got == want, 'D5', 'HashMap.serialize[after a change]' if got != want else f'serialize; {mut}({what}); serialize',
+                      f'serialize(), {mut}({k2}, {v2}) [{what}], serialize(): the second cell holds {str(got)[:90]}, the map is {want}', prog.where(prog.method('HashMap', 'serialize')))
+    it = Interp(prog)
+    hm = new_map(it, prog, 4)
+    cm.call_method(it, hm, 'set', K(5), K(200))
+    try:
+        cm.call_method(it, hm, 'serialize')
+        cm.call_method(it, hm, 'with_uint_values', K(16))
+        got = parsed_pairs(it, cm.call_method(it, hm, 'serialize'), rd16)
+    except RaiseEx as e:
+        got = f'raises {e}'
+    run.check(got == [(5, 200)], 'D5', 'HashMap.serialize[after a change]' if got != [(5, 200)] else 'serialize; with_uint_values(16); serialize',
+              f'after switching the value serialiser to 16 bits the cell reads back as {str(got)[:80]} with a 16-bit reader (stored {{5: 200}})', prog.where(prog.method('HashMap', 'serialize')))
+    # a dictionary that is not the first reference of its cell
+    for rd in ('load_dict', 'preload_dict'):
+        it = Interp(prog)
+        A_, B_ = new_map(it, prog, 4), new_map(it, prog, 4)
+        cm.call_method(it, A_, 'set', K(1), K(11))
+        cm.call_method(it, B_, 'set', K(2), K(22))
+        cm.call_method(it, B_, 'set', K(7), K(77))
+        b = it.construct(prog.cls('Builder'), [], {})
+        plain = cm.new_cell(it, cm.tvm_bits(it, BA([Seg(3, 'k', '101')])), [])
+        cm.call_method(it, b, 'store_ref', plain)
+        cm.call_method(it, b, 'store_dict', cm.call_method(it, A_, 'serialize'))
+        cm.call_method(it, b, 'store_dict', cm.call_method(it, B_, 'serialize'))
+        s_ = cm.call_method(it, cm.call_method(it, b, 'end_cell'), 'begin_parse')
+        val = lam(prog, rd8)
+        try:
+            cm.call_method(it, s_, 'load_ref')
+            r1 = cm.call_method(it, s_, rd, K(4), K(None), val)
+            if rd == 'preload_dict':
+                cm.call_method(it, s_, 'load_dict', K(4), K(None), val)
+            r2 = cm.call_method(it, s_, rd, K(4), K(None), val)
+            got = [[(k.v, v.v if isinstance(v, K) else repr(v)) for k, v in zip(r.keyobj.values(), r.d.values())] if isinstance(r, DictV) else repr(r) for r in (r1, r2)]
+        except RaiseEx as e:
+            got = f'raises {e}'
+        want = [[(1, 11)], [(2, 22), (7, 77)]]
+        run.evaluations += 1
+        run.check(got == want, 'D5', f'Slice.{rd}[dictionary behind other references]' if got != want else f'{rd}: second and third reference of a cell',
+                  f'cell = ^plain, dict A, dict B; after load_ref: {rd} gives {str(got)[:120]}, stored {want}', prog.where(prog.method('Slice', rd)))
+
     # ------------------------------------------------------------------ D3 length bookkeeping (symbolic key length)
     check_lengths(run, prog)
 
